@@ -402,3 +402,54 @@ func (v *VerifBots) Counts(band int) (uint64, uint64, float64) {
 func (v *VerifJourneyPlanner) SubmitFlights(tb *VerifBots, fe *flap.Engine, startOfDay flap.EpochTime, debit bool) error {
 	return v.jp.submitFlights(tb.tb, fe, startOfDay, nil, debit)
 }
+
+// ---- weighted choice as the simulation uses it: chooseTrip on stored country records (C19) ----
+
+// VerifCars wraps a CountriesAirportsRoutes table.
+type VerifCars struct{ c *CountriesAirportsRoutes }
+
+// VerifNewCars opens or creates the table.
+func VerifNewCars(database db.Database) *VerifCars {
+	c := NewCountriesAirportsRoutes(database)
+	if c == nil {
+		return nil
+	}
+	return &VerifCars{c}
+}
+
+// PutCountry stores a country whose airports (in the given order) have one weight per destination;
+// the country's own scale holds each airport's total weight, as Build computes it.
+func (v *VerifCars) PutCountry(cc string, airports []string, dests [][]string, weights [][]int64) error {
+	var code flap.IssuingCountry
+	copy(code[:], cc)
+	country := newCountry()
+	for i, a := range airports {
+		ap := country.getAirport(flap.NewICAOCode(a))
+		var total weight
+		for j, d := range dests[i] {
+			ap.Routes = append(ap.Routes, Route{From: ap.Code, FromCountry: code, To: flap.NewICAOCode(d)})
+			ap.add(weight(weights[i][j]))
+			total += weight(weights[i][j])
+		}
+		country.add(total)
+	}
+	return v.c.putCountry(countryState{countryCode: code, country: country})
+}
+
+// ChooseTrip calls chooseTrip (draws from math/rand's global source).
+func (v *VerifCars) ChooseTrip(p flap.Passport) (flap.ICAOCode, flap.ICAOCode, error) {
+	return v.c.chooseTrip(p)
+}
+
+// VerifChooseErrCode maps the errors of Weights.choose: -1 no weights defined, -2 weight not found, -9 other.
+func VerifChooseErrCode(err error) int {
+	switch err {
+	case nil:
+		return 0
+	case ENOWEIGHTSDEFINED:
+		return -1
+	case EWEIGHTNOTFOUND:
+		return -2
+	}
+	return -9
+}
